@@ -398,7 +398,7 @@ impl Check for C16 {
         120
     }
     fn parts(&self, tier: Tier) -> Vec<Part> {
-        vec![Part { name: "builds", kind: PartKind::Random { cases: tier.pick(256, 6000), main: 220, ops: 0, oplen: 0, sched: 0 } }, Part { name: "sigint", kind: PartKind::Random { cases: tier.pick(48, 800), main: 30, ops: 0, oplen: 0, sched: 0 } }]
+        vec![Part { name: "builds", kind: PartKind::Random { cases: tier.pick(192, 6000), main: 220, ops: 0, oplen: 0, sched: 0 } }, Part { name: "sigint", kind: PartKind::Random { cases: tier.pick(32, 800), main: 30, ops: 0, oplen: 0, sched: 0 } }]
     }
     fn run_random(&mut self, part: &str, case: &Case, env: &mut Env) -> CaseOut {
         match part {
